@@ -1,9 +1,213 @@
 (** C19 -- path indexing and value conversion are deterministic, faithful and
     total.  This file holds only the property theorems, each closed by [exact]
-    of a lemma proved elsewhere, with [Print Assumptions] beneath. *)
-From Gnmi Require Import Base.Prelude Path.PathModel.
+    of a lemma proved elsewhere, with [Print Assumptions] beneath.
 
-Theorem C19_to_strings_prefix_flag_off :
-  forall p, to_strings false p = match gp_elems p with [] => gp_element p | _ :: _ => flat_map elem_index (gp_elems p) end.
-Proof. reflexivity. Qed.
-Print Assumptions C19_to_strings_prefix_flag_off.
+    Statements marked PARTIAL carry the full statement in a comment: the full
+    statement is false of the code as it is now (DEFECT C19_1 / C19_2, known
+    finding KF-C19-3); the [_refuted] theorem beside it proves that on a
+    witness, the [_fixed] theorem proves the full statement for the model with
+    the candidate patch applied (ValueModel.defect_C19_n := false). *)
+From Gnmi Require Import Base.Prelude Path.PathModel Path.QueryString Value.ValueModel.
+From Gnmi Require Import Path.PathProofs Path.QueryProofs Value.ValueProofs.
+From Gnmi Require Import Path.C19Check Path.C19CheckProofs.
+From Coq Require Import Sorting.Sorted.
+
+(** ** indexing *)
+
+(** the index does not depend on the order in which the key maps are listed
+    (Go's map iteration order) *)
+Theorem C19_to_strings_perm :
+  forall (prefix : bool) (p p' : gpath),
+    gpath_wf p -> gpath_equiv p p' -> to_strings prefix p = to_strings prefix p'.
+Proof. exact to_strings_perm. Qed.
+Print Assumptions C19_to_strings_perm.
+
+(** each element contributes its name followed by its key values in key-name
+    order: for ANY arrangement of every key map by strictly increasing key
+    name the index is name, values, name, values, ... *)
+Theorem C19_to_strings_keys_sorted :
+  forall (prefix : bool) (p : gpath) (arr : pelem -> list (string * string)),
+    gpath_wf p ->
+    (forall e, In e (gp_elems p) -> Permutation (arr e) (snd e) /\ StronglySorted key_lt (arr e)) ->
+    to_strings prefix p = index_of arr prefix p.
+Proof. exact to_strings_keys_sorted. Qed.
+Print Assumptions C19_to_strings_keys_sorted.
+
+(** such an arrangement always exists (non-vacuity of the previous theorem) *)
+Theorem C19_sorted_arrangement_exists :
+  forall m : list (string * string),
+    NoDup (keys m) ->
+    Permutation (isort PathProofs.kv_leb m) m /\ StronglySorted key_lt (isort PathProofs.kv_leb m).
+Proof. exact sorted_arrangement_exists. Qed.
+Print Assumptions C19_sorted_arrangement_exists.
+
+(** target and origin lead the index, in this order, only when requested and
+    non-empty *)
+Theorem C19_to_strings_prefix_flag :
+  forall p : gpath,
+    to_strings true p = nonempty (gp_target p) ++ nonempty (gp_origin p) ++ to_strings false p.
+Proof. exact to_strings_prefix_flag. Qed.
+Print Assumptions C19_to_strings_prefix_flag.
+
+Theorem C19_to_strings_noprefix_ignores_target_origin :
+  forall t o t' o' es el,
+    to_strings false (GPath t o es el) = to_strings false (GPath t' o' es el).
+Proof. exact to_strings_noprefix_ignores. Qed.
+Print Assumptions C19_to_strings_noprefix_ignores_target_origin.
+
+(** CompletePath: never a panic; rejected iff both origins are set or the path
+    has an origin while the prefix has elements; otherwise origin, prefix
+    index, path index *)
+Theorem C19_complete_path_spec :
+  forall pre p : gpath,
+    (forall w, complete_path pre p <> Panic w) /\
+    ((exists c, complete_path pre p = Err c) <->
+     (set (gp_origin pre) /\ set (gp_origin p)) \/
+     (set (gp_origin p) /\ to_strings false pre <> [])) /\
+    (forall r, complete_path pre p = Ok r ->
+     r = nonempty (gp_origin pre) ++ nonempty (gp_origin p) ++ to_strings false pre ++ to_strings false p).
+Proof. exact complete_path_spec. Qed.
+Print Assumptions C19_complete_path_spec.
+
+(** ** client query -> wire -> server index *)
+
+(** PARTIAL.  Full statement (false, see the refutation below):
+      forall q, forallb plain q = true -> query_index q = Ok q.
+    Proved with the side condition that the last element does not end in '/'. *)
+Theorem C19_query_roundtrip_partial :
+  forall q : list string,
+    forallb plain q = true -> last_ok q = true -> query_index q = Ok q.
+Proof. exact query_roundtrip. Qed.
+Print Assumptions C19_query_roundtrip_partial.
+
+Theorem C19_query_roundtrip_refuted :
+  exists q, forallb plain q = true /\ query_index q <> Ok q.
+Proof. exact query_roundtrip_trailing_slash_refuted. Qed.
+Print Assumptions C19_query_roundtrip_refuted.
+
+(** ** scalars *)
+
+(** whatever FromScalar accepts comes back from ToScalar as the same scalar up
+    to integer width and float precision *)
+Theorem C19_scalar_roundtrip :
+  forall (jv : string -> bool) (x : gscalar) (t : tv),
+    from_scalar x = Ok t -> to_scalar jv t = Ok (widen x).
+Proof. exact (fun jv x t => scalar_roundtrip_gen defect_C19_2 jv x t). Qed.
+Print Assumptions C19_scalar_roundtrip.
+
+(** FromScalar is total: a value for supported input, an error otherwise *)
+Theorem C19_from_scalar_total :
+  forall x : gscalar,
+    if ValueProofs.supported x then exists t, from_scalar x = Ok t else exists c, from_scalar x = Err c.
+Proof. exact from_scalar_supported. Qed.
+Print Assumptions C19_from_scalar_total.
+
+(** PARTIAL.  Full statement (false now, DEFECT C19_2):
+      forall jv t w, to_scalar jv t <> Panic w. *)
+Theorem C19_to_scalar_total_partial :
+  forall (jv : string -> bool) (t : tv) (w : N), has_nil t = false -> to_scalar jv t <> Panic w.
+Proof. exact (fun jv t w => to_scalar_total_partial defect_C19_2 jv t w). Qed.
+Print Assumptions C19_to_scalar_total_partial.
+
+Theorem C19_to_scalar_total_refuted :
+  exists jv t w, to_scalar_gen true jv t = Panic w.
+Proof. exact to_scalar_total_refuted. Qed.
+Print Assumptions C19_to_scalar_total_refuted.
+
+Theorem C19_to_scalar_total_fixed :
+  forall (jv : string -> bool) (t : tv) (w : N), to_scalar_gen false jv t <> Panic w.
+Proof. exact to_scalar_fixed_total. Qed.
+Print Assumptions C19_to_scalar_total_fixed.
+
+(** ** Equal *)
+
+(** PARTIAL.  Full statement (false now, DEFECT C19_1):
+      forall a b, exists r, equal a b = Ok r. *)
+Theorem C19_equal_total_partial :
+  forall a b : tv, has_nil a = false -> has_nil b = false -> exists r, equal a b = Ok r.
+Proof. exact (fun a b Ha Hb => equal_gen_total defect_C19_1 a b (or_intror (conj Ha Hb))). Qed.
+Print Assumptions C19_equal_total_partial.
+
+Theorem C19_equal_total_refuted :
+  exists a b w, equal_gen true a b = Panic w.
+Proof. exact equal_total_refuted. Qed.
+Print Assumptions C19_equal_total_refuted.
+
+Theorem C19_equal_total_fixed :
+  forall a b : tv, exists r, equal_gen false a b = Ok r.
+Proof. exact (fun a b => equal_gen_total false a b (or_introl eq_refl)). Qed.
+Print Assumptions C19_equal_total_fixed.
+
+(** PARTIAL.  Full statement (false now, DEFECT C19_1):
+      forall a b, equal a b = equal b a. *)
+Theorem C19_equal_sym_partial :
+  forall a b : tv, has_nil a = false -> has_nil b = false -> equal a b = equal b a.
+Proof. exact (fun a b Ha Hb => equal_gen_sym defect_C19_1 a b (or_intror (conj Ha Hb))). Qed.
+Print Assumptions C19_equal_sym_partial.
+
+Theorem C19_equal_sym_refuted :
+  exists a b, equal_gen true a b <> equal_gen true b a.
+Proof. exact equal_sym_refuted. Qed.
+Print Assumptions C19_equal_sym_refuted.
+
+Theorem C19_equal_sym_fixed :
+  forall a b : tv, equal_gen false a b = equal_gen false b a.
+Proof. exact (fun a b => equal_gen_sym false a b (or_introl eq_refl)). Qed.
+Print Assumptions C19_equal_sym_fixed.
+
+(** Equal never reports two different values as equal: "true" only on the same
+    value, up to the sign of a floating-point zero (Go's ==) and a nil inner
+    message standing for the empty one *)
+Theorem C19_equal_sound :
+  forall a b : tv, equal a b = Ok true -> tv_equiv a b.
+Proof. exact (equal_gen_sound defect_C19_1). Qed.
+Print Assumptions C19_equal_sound.
+
+(** ** the executable specification used on the implementation's observations *)
+
+Theorem C19_spec_index_correct :
+  forall (prefix : bool) (p : gpath), gpath_wf p -> to_strings prefix p = spec_index prefix p.
+Proof. exact spec_index_correct. Qed.
+Print Assumptions C19_spec_index_correct.
+
+Theorem C19_spec_complete_correct :
+  forall pre p : gpath,
+    gpath_wf pre -> gpath_wf p -> project (complete_path pre p) = spec_complete pre p.
+Proof. exact spec_complete_correct. Qed.
+Print Assumptions C19_spec_complete_correct.
+
+Theorem C19_K_index_sound :
+  forall prefix p runs,
+    check_case (CIndex prefix p runs) = [] ->
+    Forall (fun r => r = ROk (spec_index prefix (gp_of_opt p))) runs.
+Proof. exact K_index_sound. Qed.
+Print Assumptions C19_K_index_sound.
+
+Theorem C19_K_complete_sound :
+  forall pre p r,
+    check_case (CComplete pre p r) = [] -> r = spec_complete (gp_of_opt pre) (gp_of_opt p).
+Proof. exact K_complete_sound. Qed.
+Print Assumptions C19_K_complete_sound.
+
+Theorem C19_K_query_sound :
+  forall q r,
+    check_case (CQuery q r) = [] -> utf8_all q = true -> forallb plain q = true ->
+    exists es el, r = ROk (es, el, q).
+Proof. exact K_query_sound. Qed.
+Print Assumptions C19_K_query_sound.
+
+Theorem C19_K_equal_sound :
+  forall a b rab rba,
+    check_case (CEqual a b rab rba) = [] ->
+    rab <> RPanic /\ rba <> RPanic /\ rab = rba /\ (rab = ROk true -> tv_equiv a b).
+Proof. exact K_equal_sound. Qed.
+Print Assumptions C19_K_equal_sound.
+
+Theorem C19_K_fromto_sound :
+  forall x jvalid r1 r2,
+    check_case (CFromTo x jvalid r1 r2) = [] ->
+    r1 <> RPanic /\ r2 <> RPanic /\
+    (forall t, r1 = ROk t -> ores_eqb gs_eqb r2 (ROk (widen x)) = true) /\
+    (r1 = RErr <-> C19Check.supported x = false).
+Proof. exact K_fromto_sound. Qed.
+Print Assumptions C19_K_fromto_sound.
